@@ -7,6 +7,7 @@ import Ymq.Drv.Util
 import Ymq.Model.SiqsPoly
 import Ymq.Model.MpqsPoly
 import Ymq.Model.QsRoots
+import Ymq.Model.SiqsSelect
 
 namespace Ymq.Drv
 open Ymq.SiqsPoly
@@ -95,6 +96,16 @@ def qsRoots (n : Nat) (fb : List Prime) : String :=
       s!"fwd={showPairs fwd} bck={showPairs bck}"
     | _, _ => "panic"
 
+open Ymq.SiqsSelect in
+def siqsSelect (n : Int) (nfacs mm want fuel : Nat) (fb : List Prime) : String :=
+  match selectFactors fb n nfacs mm with
+  | none => "sel-panic"
+  | some (tgt, sel) =>
+    let acc := s!"tgt={tgt} sel={showList (sel.map (·.p))}"
+    match selectA n tgt nfacs want (sel.map (·.p)) fuel with
+    | none => acc ++ " a-panic"
+    | some as => acc ++ s!" as={showList as}"
+
 def handlePoly : Handler
   | ["siqs_walk_m", n, mm, so, fb, sq, sel, selr, a, step, tail, maxpolys] => do
     let n ← parseInt n; let mm ← parseNat mm; let so ← parseInt so
@@ -110,6 +121,10 @@ def handlePoly : Handler
   | ["mpqs_batchinv_m", ds, fb] => do
     let ds ← parseNatList ds; let fb ← parseNatList fb
     some (" ".intercalate (ds.map fun d => showList (fb.map fun p => MpqsPoly.dinvModp d p)))
+  | ["siqs_select_m", n, nfacs, mm, want, fuel, fb, sq] => do
+    let n ← parseInt n; let nfacs ← parseNat nfacs; let mm ← parseNat mm; let want ← parseNat want
+    let fuel ← parseNat fuel; let fb ← parseNatList fb; let sq ← parseNatList sq
+    some (siqsSelect n nfacs mm want fuel (mkFb fb sq))
   | ["qs_roots_m", n, fb, sq] => do
     let n ← parseNat n; let fb ← parseNatList fb; let sq ← parseNatList sq
     some (qsRoots n (mkFb fb sq))
